@@ -13,7 +13,7 @@ package policer
 
 //@ ghost field confirmed(x int) uint32
 //@ callrule header_read_confirms_holder in (*Policer).processNodes
-//@   property C26
+//@   property C26 C27
 //@   callee *).headObject
 //@   pureeffect
 //@   assigns confirmed, lastHeaderRead
@@ -33,7 +33,7 @@ package policer
 // the helpers called by processNodes work on the node cache, the metrics and the network
 // view; they are assumed not to touch the placement context or the function's variables
 //@ callrule process_nodes_helpers_are_pure in (*Policer).processNodes
-//@   property C26
+//@   property C26 C27
 //@   callee (context.Context).Done, *).getHeadTimeout, *).IsLocalNodePublicKey, *).PublicKey, *).IsMaintenance, (*policer.nodeCache).*, context.WithTimeout, dynamic:*, netmap.StringifyPublicKey, (*atomic.Bool).Store, *).SetPolicerConsistency, *).SetPolicerOptimalPlacement, (*policer.Policer).tryToReplicate
 //@   pureeffect
 
@@ -126,3 +126,24 @@ package policer
 //@   property C27 C26
 //@   callee *).headObject
 //@   requires [remote_holders_only] !currentNodeIsLocal()
+
+// ---- C27 (several rules over overlapping node lists): what an earlier rule of the same pass
+// learnt about a node is reused - a node known to hold the object is never offered as a
+// replication candidate again (replicating to a holder "succeeds" every cycle and never
+// stops).
+//@ ghost field cachedNodeStatus(x int) int8
+//@ callrule c27_node_iteration_starts in (*Policer).processNodes
+//@   property C27
+//@   callee *).IsLocalNodePublicKey
+//@   pureeffect
+//@   assigns cachedNodeStatus
+//@   defines cachedNodeStatus(0) == -1
+//@ callrule c27_cached_node_status in (*Policer).processNodes
+//@   property C27
+//@   callee (*policer.nodeCache).processStatus
+//@   pureeffect
+//@   assigns cachedNodeStatus
+//@   defines cachedNodeStatus(0) == result
+//@ func (*Policer).processNodes
+//@   property C27
+//@   loop 1 iteration [known_holder_is_not_offered_as_a_candidate] cachedNodeStatus(0) == 0 ==> len(candidates) == old(len(candidates))
